@@ -15,7 +15,18 @@ Alphabet
   splits     every finite end point of the alphabet {-1,-0.5,-0.4,-0.2,-0.03,0.02,0.1,0.25,0.3,0.7} strictly inside the
              interval of the coordinate being split, and 0 for straddling coordinates (the two pieces (a,0] and (0,b] then
              have an end point exactly at zero; they are checked like every other rectangle, against a reference that knows
-             U(0+) = nu(0,inf) and U(0-) = -nu(-inf,0), finite for finite-activity margins and infinite otherwise)
+             U(0+) = nu(0,inf) and U(0-) = -nu(-inf,0), finite for finite-activity margins and infinite otherwise, and that
+             (a,0] contains the hyperplane x_k = 0 while (0,b] does not; this reference was validated against the 2-d
+             quadrature of the joint density on (eps,b] x B, eps -> 0, plus the mass of {0} x B).
+             mc.oracle.ref_rectangle_mass takes U(0+-) = +-inf: exact for infinite-activity margins, wrong for
+             finite-activity ones at an end point 0 (it splits the mass of the hyperplane between the two pieces), so it
+             is consulted on zero pieces only when the split coordinate has infinite activity.
+             Zero splits of an infinite-activity coordinate need nu_k((0,inf)) = +inf from the margin: where the margin's
+             closed form returns nan on that divergent integral (CGMY with y >= 1) the split is outside the alphabet
+             (counter zero_split_skipped_margin_integral_not_inf).
+  tiers      thorough = every model (Levy and exponential) x all rectangles; quick = the quick model list, d = 2 all
+             rectangles, d = 3 all rectangles for the Clayton Levy models and, for the others, all 15 intervals in the
+             first coordinate x first numeric instances in the second and third
   subsets    all non-empty proper index subsets I, all |I|-tuples of intervals that are not all straddling
 
 Sub-checks (sub = ...)
